@@ -139,7 +139,7 @@ func Finding(id string, c bool) {
 func KnownPanic(id string, substr ...string) {}
 func Observe(vals ...interface{})           { Observed = append(Observed, fmt.Sprint(vals...)) }
 func Yield()                                {}
-func Sleep(d time.Duration)                 {}
+func Sleep(d time.Duration)                 { time.Sleep(d) }
 func NowNs() int64                          { return 0 }
 func AllowDeadlock()                        {}
 func Symbolic() bool                        { return false }
